@@ -133,6 +133,7 @@ struct World : SpawnHandler {
   std::map<std::string, int> version;
   std::map<std::string, int> inc_version;   // which hidden includes a source pulls in (no effect on what is computed)
   std::set<std::string> emptied;            // sources whose content is currently empty
+  std::map<std::string, std::string> dd_override;   // damaged text a dyndep file currently has / will be given by its producer ("<absent>" = not written)
   Tape* tape = nullptr;
   const Profile* prof = nullptr;
   std::vector<Violation>* viol = nullptr;
